@@ -517,6 +517,9 @@ def _matches_oracle(vn: str, df: str, tag: str, cell: str):
         return norm(e) == '%s.tag' % vn
 
     def o(e):
+        if isinstance(e, ast.Name) and e.id == df:
+            # the default itself as a condition: None and False are false, True is true; a number or anything else may be either
+            return {'none': False, 'true': True, 'false': False}.get(cell)
         if isinstance(e, ast.Compare) and len(e.ops) == 1:
             l, op, rr = e.left, e.ops[0], e.comparators[0]
             if isinstance(op, (ast.Eq, ast.NotEq)):
@@ -1224,9 +1227,9 @@ def r16_2_kind_first(ctx, rid='R16.2'):
     r.done()
 
 
-def r16_3_decisions(ctx):
+def r16_3_decisions(ctx, rid='R16.3'):
     P = ctx.P
-    r = ctx.rule('R16.3', 'each require_* helper raises RecognitionError exactly under the documented condition', floor=12)
+    r = ctx.rule(rid, 'each require_* helper raises RecognitionError exactly under the documented condition', floor=12)
     # require_mapping / require_sequence
     for name, cls_ in (('require_mapping', 'MappingNode'), ('require_sequence', 'SequenceNode')):
         f = fn(P, UNK + name)
